@@ -94,7 +94,7 @@ func init() {
 		return "differ " + hex.EncodeToString(b1) + " " + hex.EncodeToString(b2)
 	}
 	families["C17"] = func(c *Ctx) {
-		names := namesFrom("/verif/lean/OFV/Gen/Registry.lean")
+		names := namesFrom(verifRoot() + "/lean/OFV/Gen/Registry.lean")
 		width := func(n string) int { return specWidth[n] }
 		loadSpecWidths()
 		vals := func(w int) []string {
@@ -199,7 +199,7 @@ var specWidth = map[string]int{}
 
 // loadSpecWidths reads (name, class, field, width) rows of the regenerated registry (widths only steer generation).
 func loadSpecWidths() {
-	for _, p := range []string{"/verif/lean/OFV/Gen/Registry.lean"} {
+	for _, p := range []string{verifRoot() + "/lean/OFV/Gen/Registry.lean"} {
 		b, err := readFile(p)
 		if err != nil {
 			continue
